@@ -339,3 +339,66 @@ def c10(run):
 
 
 MODES["C10"] = "conv"
+
+
+# ------------------------------------------------------------------ C07
+LIT_ALPHABET = ["0", "1", "7", ",", ".", "-"]
+
+
+def literal_space(run, cfg, alphabet, maxlen, name, parts=12, position_every=97):
+    """Accept set from TLC, complement enumerated by the harness."""
+    nd, n, st = tlc_gen("MCLiteral.tla", cfg, name, workers=8, timeout=3000)
+    st["scenario"] = "all strings over %s up to length %d" % ("".join(alphabet), maxlen)
+    run.add_model(st)
+    recs = [{"alphabet": alphabet, "maxlen": maxlen, "accept_file": nd, "part": k, "parts": parts,
+             "position_every": position_every, "_mode": "literal-space"} for k in range(parts)]
+    sp = os.path.join(WORK, name + "-space.ndjson")
+    with open(sp, "w") as f:
+        for r in recs:
+            f.write(json.dumps(r) + "\n")
+    res = run_vh("literal-space", sp, budget_ms=1500000, jobs=parts)
+    strings = wellformed = seen = inpos = 0
+    for rec, r in zip(recs, res):
+        if r.get("fatal"):
+            run.report("fatal_" + r["fatal"], rec, r, "harness process %s while enumerating the literal space" % r["fatal"])
+            continue
+        o = r["observed"]
+        strings += o["strings"]; wellformed += o["wellformed"]; seen += o["accept_records_seen"]; inpos += o["in_position"]
+        for v in r.get("viol", []):
+            run.report(v["kind"], dict(rec, example=v["msg"]), {"viol": v, "violations_by_kind": o["violations_by_kind"]}, "%s: %s" % (v["kind"], v["msg"]))
+    if seen != n:
+        raise ToolError("the harness met %d of the %d strings emitted by the specification: the two enumerations of the space differ" % (seen, n))
+    run.evaluations += strings
+    for k in range(wellformed):
+        run.nontrivial.add((name, k))
+    run.traces += strings
+    run.extra.setdefault("spaces", []).append({"alphabet": "".join(alphabet), "maxlen": maxlen, "strings": strings,
+                                               "wellformed": wellformed, "checked_in_every_position": inpos})
+    run.sample({"space": st["scenario"], "strings": strings, "wellformed_per_specification": wellformed})
+
+
+@check("C07")
+def c07(run):
+    run.rule = ("spec/Literal.tla: every string over {0,1,7,',','.','-'} up to length 8 (thorough: also {0,1,',','.','-'} up to 10); the "
+                "specification emits the well-formed ones with mantissa digits, scale, format and canonical print, the harness enumerates "
+                "the whole space and expects rejection of everything else; every 97th string is also placed in each syntactic position "
+                "(posting amount, cost, total cost, lot price, assertion, assignment, format directive, parenthesised, eval argument); "
+                "long literals (20-46 characters) hugging 2^96 and the 28-place limit come from TLC simulation; non-trivial = well-formed strings")
+    run.assumptions += ["a literal without integer digits (`.5`) may be accepted or rejected (neither in the documented grammar nor excluded by the statement); if accepted its value must be right",
+                        "printing may differ from the specification's canonical text as long as it reads back as the same mantissa, scale and (where there are thousands) grouping",
+                        "the sign of zero is not compared"]
+    quick = run.tier == "quick"
+    run.add_model(tlc_check("MCLiteral.tla", "Literal_small.cfg", workers=8, timeout=1500))
+    literal_space(run, "Literal_gen.cfg", LIT_ALPHABET, 8, "C07-gen")
+    if not quick:
+        run.add_model(tlc_check("MCLiteral.tla", "Literal_smallT.cfg", workers=8, timeout=3000))
+        literal_space(run, "Literal_genT.cfg", ["0", "1", ",", ".", "-"], 10, "C07-genT", position_every=197)
+    nd, n, st = tlc_gen("MCLiteral.tla", "Literal_long.cfg", "C07-long", simulate={"num": 400 if quick else 4000, "depth": 48},
+                        seed=run.seed, timeout=1700)
+    st["scenario"] = "long literals (simulation)"
+    run.add_model(st)
+    feed(run, "literal", nd, key=lambda r: "".join(r["s"]))
+    run.exhaustive = True
+
+
+MODES["C07"] = "literal"
